@@ -517,6 +517,13 @@ def check_workbook(case, ctx, st=None):
     isolated, plain_cycle, unselected, cyclic = classify(desc)
     unselected -= (lazy.tainted | lazy.cyclic)
     range_members = _range_members_in_cycles(desc, cyclic)
+    # ... and every cell that shares a cyclic component with such a member:
+    # the refusal to cut the component's cycle marks all of its cells
+    E_ = edges_of(desc)
+    adj_ = {k: {t for t, _g, _s in v} for k, v in E_.items()}
+    for comp in sccs(adj_):
+        if len(comp) > 1 and comp & range_members:
+            range_members = range_members | comp
     obs = {}
     prefix = case.get('prefix', '')
     for name in want:
